@@ -92,6 +92,10 @@ def generate(rng, tier, n):
         q = {"sel": sel, "cond": cond, "objs": objs, "doms": {n_: d for n_, d in doms.items() if n_ in used},
              "kinds": {n_: k for n_, k in kinds.items() if n_ in used}, "force_set_of": len(sel) > 1}
         tags = ["depth%d" % G.cond_depth(cond), "nsel%d" % len(sel), "falsy" if falsy else "truthy"] + sorted(set(G.cond_ops(cond)))
+        if "truth" not in G.cond_ops(cond) and rng.random() < 0.25:
+            # one attribute node object per distinct attribute expression, used as a comparison operand several times
+            q["share_attr_nodes"] = True
+            tags.append("shared-operand-nodes")
         out.append(Case(G.sx_query(q), tuple(tags), "random", q))
     return out
 
@@ -125,6 +129,23 @@ def _exc(e):
     return exc_name(e)
 
 
+def _first_shared_candidate(c):
+    """the first `and` sub-condition that is a direct operand of an `or` or a `not`"""
+    if c is None:
+        return None
+    k = c[0]
+    if k == "or":
+        for side in (c[1], c[2]):
+            if side[0] == "and":
+                return side
+        return _first_shared_candidate(c[1]) or _first_shared_candidate(c[2])
+    if k == "not":
+        return c[1] if c[1][0] == "and" else _first_shared_candidate(c[1])
+    if k == "and":
+        return _first_shared_candidate(c[1]) or _first_shared_candidate(c[2])
+    return None
+
+
 def _one(case: Case) -> str:
     """the(...) is evaluated FIRST and an(...) afterwards, over the SAME variables whose domains are one-shot generators:
     a the() that raises MultipleSolutionFound leaves an abandoned evaluation behind, and the count seen by the following
@@ -137,8 +158,25 @@ def _one(case: Case) -> str:
         V = G.make_vars(q, objs, one_shot=True)
     except Exception as e:  # noqa: BLE001
         return f"{_exc(e)} | {_exc(e)}"
+    memo = None
+    if int(case.key()[:4], 16) % 3 == 0 and not q.get("share_attr_nodes"):
+        # a compound sub-condition that is an operand of or_/not_ is stored in a Python variable, first used ALONE as
+        # the condition of a conjunctive query (evaluated), and then re-used as that operand in the queries below
+        sub = _first_shared_candidate(q["cond"])
+        if sub is not None:
+            memo = {}
+            try:
+                vs = []
+                for v in G.c_allvars(sub):
+                    if v not in vs:
+                        vs.append(v)
+                pre, _, _ = G.build_query({**q, "sel": [("var", v) for v in vs], "cond": sub, "force_set_of": len(vs) > 1},
+                                          V, objs, cond_memo=memo)
+                list(pre.evaluate())
+            except Exception:  # noqa: BLE001
+                pass
     try:
-        query2, sel2, single2 = G.build_query(q, V, objs)
+        query2, sel2, single2 = G.build_query(q, V, objs, cond_memo=None)
         t = the(query2._child_)
         r = t.evaluate()
         row = G.show_row((r,)) if single2 else G.show_row(tuple(r[k] for k in sel2))
@@ -150,7 +188,7 @@ def _one(case: Case) -> str:
     except Exception as e:  # noqa: BLE001
         th = _exc(e)
     try:
-        query, sel, single = G.build_query(q, V, objs)
+        query, sel, single = G.build_query(q, V, objs, cond_memo=memo)
         bag = " ".join(sorted(G.rows_of(query, sel, single)))
     except Exception as e:  # noqa: BLE001
         bag = _exc(e)
